@@ -300,19 +300,31 @@ Proof.
   etransitivity; [apply IH; exact H|apply N.le_max_r].
 Qed.
 
-Lemma fresh_path_files s : ~ In (fresh_path s) (keys (files s)).
+Lemma fresh_path_gt s p : In p (keys (files s)) \/ In p (tracked_of (mans s)) -> (p < fresh_path s)%N.
 Proof.
-  intros H. unfold fresh_path in H.
-  assert (Hle := maxN_ge _ (keys (files s) ++ map (fun km => m_out (snd km)) (mans s)) (in_or_app _ _ _ (or_introl H))).
-  lia.
+  intros H. unfold fresh_path.
+  assert (Hin : In p (keys (files s) ++ tracked_of (mans s))) by (apply in_or_app; exact H).
+  apply maxN_ge in Hin. lia.
+Qed.
+
+Lemma fresh_path_files s : ~ In (fresh_path s) (keys (files s)).
+Proof. intros H. assert (L := fresh_path_gt s _ (or_introl H)). lia. Qed.
+
+Lemma tracked_of_in ms mp m : In (mp, m) ms -> forall p, p = m_out m \/ In p (m_inputs m) -> In p (tracked_of ms).
+Proof.
+  intros H p Hp. unfold tracked_of. apply in_flat_map. exists (mp, m). split; [exact H|]. cbn.
+  destruct Hp as [->|Hp]; [left; reflexivity|right; exact Hp].
+Qed.
+
+Lemma tracked_of_inv ms p : In p (tracked_of ms) -> exists mp m, In (mp, m) ms /\ (p = m_out m \/ In p (m_inputs m)).
+Proof.
+  unfold tracked_of. intros H. apply in_flat_map in H. destruct H as [[mp m] [Hin Hp]]. exists mp, m. split; [exact Hin|].
+  cbn in Hp. destruct Hp as [<-|Hp]; [left; reflexivity|right; exact Hp].
 Qed.
 
 Lemma fresh_path_mans s mp m : In (mp, m) (mans s) -> m_out m <> fresh_path s.
 Proof.
-  intros H E. unfold fresh_path in E.
-  assert (Hin : In (m_out m) (keys (files s) ++ map (fun km => m_out (snd km)) (mans s))).
-  { apply in_or_app; right. apply in_map_iff. exists (mp, m). split; [reflexivity|exact H]. }
-  apply maxN_ge in Hin. lia.
+  intros H E. assert (L := fresh_path_gt s (m_out m) (or_intror (tracked_of_in _ _ _ H _ (or_introl eq_refl)))). lia.
 Qed.
 
 Lemma fresh_man_mans s : ~ In (fresh_man s) (keys (mans s)).
@@ -380,85 +392,102 @@ Qed.
 Lemma present_nodup s ins : NoDup ins -> NoDup (present s ins).
 Proof. apply NoDup_filter. Qed.
 
+(* names a job may use in state s: an output path and a manifest path nothing mentions yet *)
+Definition fresh_for (s : state) (out mp : path) : Prop :=
+  ~ In out (keys (files s)) /\
+  (forall mp' m', In (mp', m') (mans s) -> m_out m' <> out /\ ~ In out (m_inputs m')) /\
+  ~ In mp (keys (mans s)).
+
+Lemma fresh_for_fresh s : fresh_for s (fresh_path s) (fresh_man s).
+Proof.
+  split; [apply fresh_path_files|]. split; [|apply fresh_man_mans].
+  intros mp' m' Hin. split.
+  - apply (fresh_path_mans s mp' m' Hin).
+  - intros H. assert (L := fresh_path_gt s _ (or_intror (tracked_of_in _ _ _ Hin _ (or_intror H)))). lia.
+Qed.
+
+Lemma job_steps_unfold compact ord ins s :
+  job_steps compact ord ins s = job_steps_named compact ord (fresh_path s) (fresh_man s) ins s.
+Proof. reflexivity. Qed.
+
 Section Job.
   Variable compact : bool -> list row -> list row.
   Hypothesis compact_spec : forall b l, rel b l (compact b l).
+  Variables out mp : path.
 
-  Notation jsteps := (job_steps compact code_order).
+  Notation jsteps := (job_steps_named compact code_order out mp).
 
   Definition jout (s : state) (ins : list path) : file := job_output compact s (present s ins).
   Definition jman (s : state) (ins : list path) : manifest :=
-    mkMan (fresh_path s) (f_size (jout s ins)) (present s ins).
+    mkMan out (f_size (jout s ins)) (present s ins).
   (* the files once a job has run to completion *)
   Definition files_done (s : state) (ins : list path) : list (path * file) :=
     match present s ins with
     | [] => files s
-    | _ => dels (present s ins) (files s) ++ [(fresh_path s, jout s ins)]
+    | _ => dels (present s ins) (files s) ++ [(out, jout s ins)]
     end.
 
   Lemma jsteps_nil s ins : present s ins = [] -> jsteps ins s = [].
-  Proof. unfold job_steps. intros ->. reflexivity. Qed.
+  Proof. unfold job_steps_named. intros ->. reflexivity. Qed.
 
   Lemma jsteps_eq s ins : present s ins <> [] ->
-    jsteps ins s = SPutMan (fresh_man s) (jman s ins) :: SPut (fresh_path s) torn_file ::
-                   SPut (fresh_path s) (jout s ins) :: map SDel (present s ins) ++ [SDelMan (fresh_man s)].
+    jsteps ins s = SPutMan mp (jman s ins) :: SPut out torn_file ::
+                   SPut out (jout s ins) :: map SDel (present s ins) ++ [SDelMan mp].
   Proof.
-    unfold job_steps, jman, jout. destruct (present s ins) eqn:E; [congruence|]. intros _.
+    unfold job_steps_named, jman, jout. destruct (present s ins) eqn:E; [congruence|]. intros _.
     cbn [code_order flat_map phase_steps app]. reflexivity.
   Qed.
 
-  Lemma out_notin_pres s ins : ~ In (fresh_path s) (present s ins).
-  Proof. intros H. apply present_in in H. exact (fresh_path_files s (proj2 H)). Qed.
+  Lemma out_notin_pres s ins : ~ In out (keys (files s)) -> ~ In out (present s ins).
+  Proof. intros Ho H. apply present_in in H. exact (Ho (proj2 H)). Qed.
 
   (* the five shapes of a crashed job *)
-  Lemma st_man s ins : run [SPutMan (fresh_man s) (jman s ins)] s =
-    mkState (files s) (mans s ++ [(fresh_man s, jman s ins)]).
-  Proof. cbn. rewrite put_absent; [reflexivity|apply fresh_man_mans]. Qed.
+  Lemma st_man s ins : ~ In mp (keys (mans s)) ->
+    run [SPutMan mp (jman s ins)] s = mkState (files s) (mans s ++ [(mp, jman s ins)]).
+  Proof. intros Hm. cbn. rewrite put_absent; [reflexivity|exact Hm]. Qed.
 
-  Lemma st_torn s ins : run [SPutMan (fresh_man s) (jman s ins); SPut (fresh_path s) torn_file] s =
-    mkState (files s ++ [(fresh_path s, torn_file)]) (mans s ++ [(fresh_man s, jman s ins)]).
+  Lemma st_torn s ins : ~ In mp (keys (mans s)) -> ~ In out (keys (files s)) ->
+    run [SPutMan mp (jman s ins); SPut out torn_file] s =
+    mkState (files s ++ [(out, torn_file)]) (mans s ++ [(mp, jman s ins)]).
   Proof.
-    cbn. rewrite (put_absent (fresh_man s) _ (mans s)) by apply fresh_man_mans.
-    rewrite (put_absent (fresh_path s) _ (files s)) by apply fresh_path_files. reflexivity.
+    intros Hm Ho. cbn. rewrite (put_absent mp _ (mans s)) by exact Hm.
+    rewrite (put_absent out _ (files s)) by exact Ho. reflexivity.
   Qed.
 
-  Lemma st_up s ins D : (forall p, In p D -> In p (present s ins)) ->
-    run (SPutMan (fresh_man s) (jman s ins) :: SPut (fresh_path s) torn_file ::
-         SPut (fresh_path s) (jout s ins) :: map SDel D) s =
-    mkState (dels D (files s) ++ [(fresh_path s, jout s ins)]) (mans s ++ [(fresh_man s, jman s ins)]).
+  Lemma st_up s ins D : ~ In mp (keys (mans s)) -> ~ In out (keys (files s)) ->
+    (forall p, In p D -> In p (present s ins)) ->
+    run (SPutMan mp (jman s ins) :: SPut out torn_file :: SPut out (jout s ins) :: map SDel D) s =
+    mkState (dels D (files s) ++ [(out, jout s ins)]) (mans s ++ [(mp, jman s ins)]).
   Proof.
-    intros HD.
-    change (SPutMan (fresh_man s) (jman s ins) :: SPut (fresh_path s) torn_file ::
-            SPut (fresh_path s) (jout s ins) :: map SDel D)
-      with ([SPutMan (fresh_man s) (jman s ins); SPut (fresh_path s) torn_file] ++
-            [SPut (fresh_path s) (jout s ins)] ++ map SDel D).
-    rewrite run_app, st_torn, run_app. cbn [run fold_left apply files mans].
-    rewrite put_last; [|apply fresh_path_files].
+    intros Hm Ho HD.
+    change (SPutMan mp (jman s ins) :: SPut out torn_file :: SPut out (jout s ins) :: map SDel D)
+      with ([SPutMan mp (jman s ins); SPut out torn_file] ++ [SPut out (jout s ins)] ++ map SDel D).
+    rewrite run_app, st_torn, run_app by assumption. cbn [run fold_left apply files mans].
+    rewrite put_last by exact Ho.
     change (fold_left (fun s0 st => apply st s0) (map SDel D) ?x) with (run (map SDel D) x).
     rewrite run_dels. cbn [files mans]. rewrite dels_app. f_equal. f_equal.
-    apply dels_id. intros k Hk [E|[]]. cbn in E. subst k. exact (out_notin_pres s ins (HD _ Hk)).
+    apply dels_id. intros k Hk [E|[]]. cbn in E. subst k. exact (out_notin_pres s ins Ho (HD _ Hk)).
   Qed.
 
-  Lemma st_done s ins : present s ins <> [] ->
+  Lemma st_done s ins : ~ In mp (keys (mans s)) -> ~ In out (keys (files s)) -> present s ins <> [] ->
     run (jsteps ins s) s = mkState (files_done s ins) (mans s).
   Proof.
-    intros Hne. rewrite (jsteps_eq s ins Hne).
-    change (SPutMan (fresh_man s) (jman s ins) :: SPut (fresh_path s) torn_file ::
-            SPut (fresh_path s) (jout s ins) :: map SDel (present s ins) ++ [SDelMan (fresh_man s)])
-      with ((SPutMan (fresh_man s) (jman s ins) :: SPut (fresh_path s) torn_file ::
-            SPut (fresh_path s) (jout s ins) :: map SDel (present s ins)) ++ [SDelMan (fresh_man s)]).
+    intros Hm Ho Hne. rewrite (jsteps_eq s ins Hne).
+    change (SPutMan mp (jman s ins) :: SPut out torn_file :: SPut out (jout s ins) :: map SDel (present s ins) ++ [SDelMan mp])
+      with ((SPutMan mp (jman s ins) :: SPut out torn_file :: SPut out (jout s ins) :: map SDel (present s ins)) ++ [SDelMan mp]).
     rewrite run_app, st_up by auto. cbn [run fold_left apply files mans].
     unfold files_done. destruct (present s ins) eqn:E; [congruence|]. f_equal.
     unfold del. rewrite dels_app. rewrite dels_id.
     - rewrite dels_cons, memb_single, N.eqb_refl. cbn. apply app_nil_r.
-    - intros k [<-|[]]. apply fresh_man_mans.
+    - intros k [<-|[]]. exact Hm.
   Qed.
 
-  Lemma run_done_any s ins : run (jsteps ins s) s = mkState (files_done s ins) (mans s).
+  Lemma run_done_any s ins : ~ In mp (keys (mans s)) -> ~ In out (keys (files s)) ->
+    run (jsteps ins s) s = mkState (files_done s ins) (mans s).
   Proof.
-    destruct (present s ins) eqn:E.
+    intros Hm Ho. destruct (present s ins) eqn:E.
     - rewrite jsteps_nil by exact E. unfold files_done. rewrite E. destruct s; reflexivity.
-    - apply st_done. congruence.
+    - apply st_done; [exact Hm|exact Ho|congruence].
   Qed.
 
   Lemma meta_mode B s pres : nometa B (files s) ->
@@ -472,27 +501,27 @@ Section Job.
 
   (* a completed job: same rows modulo dedup, and the state is quiet again *)
   Lemma job_done B s ins :
-    quiet s -> NoDup ins -> nometa B (files s) ->
+    quiet s -> fresh_for s out mp -> NoDup ins -> nometa B (files s) ->
     quiet (mkState (files_done s ins) (mans s)) /\
     rel B (visible s) (vis (files_done s ins)) /\
     nometa B (files_done s ins).
   Proof.
-    intros Q Hnd Hnm. unfold files_done. destruct (present s ins) eqn:E.
+    intros Q [Ho [Hom _]] Hnd Hnm. unfold files_done. destruct (present s ins) eqn:E.
     - split; [destruct s; exact Q|]. split; [apply rel_refl|exact Hnm].
     - rewrite <- E. set (pres := present s ins).
       assert (Hpn : NoDup pres) by (apply present_nodup; exact Hnd).
       assert (Hpk : forall q, In q pres -> In q (keys (files s))) by (intros q Hq; apply (present_in s ins q Hq)).
-      assert (Hout : ~ In (fresh_path s) (keys (dels pres (files s)))).
-      { intros H. apply keys_dels in H. exact (fresh_path_files s (proj1 H)). }
+      assert (Hout : ~ In out (keys (dels pres (files s)))).
+      { intros H. apply keys_dels in H. exact (Ho (proj1 H)). }
       split; [|split].
       + constructor; cbn [files mans].
         * apply NoDup_keys_snoc; [apply NoDup_keys_dels; apply (q_files _ Q)|exact Hout].
         * apply (q_mans _ Q).
-        * intros mp m Hm. unfold dead. cbn [files].
-          assert (Hd := q_dead _ Q mp m Hm). unfold dead in Hd. apply lookup_None in Hd.
+        * intros mp0 m Hm. unfold dead. cbn [files].
+          assert (Hd := q_dead _ Q mp0 m Hm). unfold dead in Hd. apply lookup_None in Hd.
           rewrite lookup_app_r.
-          -- cbn. destruct (N.eqb_spec (m_out m) (fresh_path s)) as [Ee|_]; [|reflexivity].
-             exfalso. exact (fresh_path_mans s mp m Hm Ee).
+          -- cbn. destruct (N.eqb_spec (m_out m) out) as [Ee|_]; [|reflexivity].
+             exfalso. exact (proj1 (Hom mp0 m Hm) Ee).
           -- intros H. apply keys_dels in H. tauto.
         * intros q f Hin. apply in_app_or in Hin. destruct Hin as [Hin|[Hin|[]]].
           -- apply In_dels in Hin. apply (q_ok _ Q q f (proj1 Hin)).
@@ -561,59 +590,61 @@ Proof. apply N.eqb_neq. unfold size_of. lia. Qed.
 Section Recover.
   Variable compact : bool -> list row -> list row.
   Hypothesis compact_spec : forall b l, rel b l (compact b l).
-  Notation jsteps := (job_steps compact code_order).
+  Variables out mp : path.
+  Notation jsteps := (job_steps_named compact code_order out mp).
 
-  Lemma old_dead_snoc s (G : list (path * file)) (f : file) : quiet s -> (forall k, In k (keys G) -> In k (keys (files s))) ->
-    forall mp' m', In (mp', m') (mans s) -> lookup (m_out m') (G ++ [(fresh_path s, f)]) = None.
+  Lemma old_dead_snoc s (G : list (path * file)) (f : file) : quiet s ->
+    (forall mp' m', In (mp', m') (mans s) -> m_out m' <> out) ->
+    (forall k, In k (keys G) -> In k (keys (files s))) ->
+    forall mp' m', In (mp', m') (mans s) -> lookup (m_out m') (G ++ [(out, f)]) = None.
   Proof.
-    intros Q HG mp' m' Hin. assert (Hd := q_dead _ Q mp' m' Hin). unfold dead in Hd.
+    intros Q Hom HG mp' m' Hin. assert (Hd := q_dead _ Q mp' m' Hin). unfold dead in Hd.
     apply lookup_None in Hd. rewrite lookup_app_r; [|intros H; apply Hd, HG, H].
-    cbn. destruct (N.eqb_spec (m_out m') (fresh_path s)) as [E|_]; [|reflexivity].
-    exfalso. exact (fresh_path_mans s mp' m' Hin E).
+    cbn. destruct (N.eqb_spec (m_out m') out) as [E|_]; [|reflexivity].
+    exfalso. exact (Hom mp' m' Hin E).
   Qed.
 
   (* whatever the crash point of a job, manifest recovery yields either the files as they
      were before the job or the files of the completed job, and no manifest *)
-  Lemma recover_prefix s ins k : quiet s -> NoDup ins ->
+  Lemma recover_prefix s ins k : quiet s -> fresh_for s out mp -> NoDup ins ->
     exists F, recover_all (run (firstn k (jsteps ins s)) s) = mkState F [] /\
-              (F = files s \/ F = files_done compact s ins).
+              (F = files s \/ F = files_done compact out s ins).
   Proof.
-    intros Q Hnd.
+    intros Q Hfr Hnd. destruct Hfr as [Hout [Hom0 Hmp]].
+    assert (Hom : forall mp' m', In (mp', m') (mans s) -> m_out m' <> out) by (intros a b H; apply (Hom0 a b H)).
     assert (Hs : recover_all s = mkState (files s) []) by (apply recover_quiet; exact Q).
     destruct (present s ins) eqn:E.
     { rewrite jsteps_nil by exact E. rewrite firstn_nil. exists (files s). split; [exact Hs|left; reflexivity]. }
     assert (Hne : present s ins <> []) by congruence. clear E.
-    set (out := fresh_path s). set (mp := fresh_man s). set (m := jman compact s ins).
-    assert (Hmp : ~ In mp (keys (mans s))) by apply fresh_man_mans.
-    assert (Hout : ~ In out (keys (files s))) by apply fresh_path_files.
-    rewrite (jsteps_eq compact s ins Hne). fold out mp m.
+    set (m := jman compact out s ins).
+    rewrite (jsteps_eq compact out mp s ins Hne). fold m.
     destruct (firstn_job k (SPutMan mp m) (SPut out torn_file) (SPut out (jout compact s ins))
                 (SDelMan mp) (map SDel (present s ins))) as [H|[H|[H|[[j H]|H]]]]; rewrite H; clear H.
     - exists (files s). split; [exact Hs|left; reflexivity].
     - (* manifest written, no upload *)
       exists (files s). split; [|left; reflexivity].
-      unfold mp, m. rewrite st_man. fold mp m. rewrite recover_with_new; [|apply (q_dead _ Q)|exact Hmp].
+      unfold m. rewrite st_man by exact Hmp. fold m. rewrite recover_with_new; [|apply (q_dead _ Q)|exact Hmp].
       unfold recover_steps. cbn [files m_out m jman].
-      assert (Hl : lookup (fresh_path s) (files s) = None) by (apply lookup_None; exact Hout).
+      assert (Hl : lookup out (files s) = None) by (apply lookup_None; exact Hout).
       rewrite Hl. cbn [run fold_left apply files mans]. rewrite del_single. reflexivity.
     - (* torn upload *)
       exists (files s). split; [|left; reflexivity].
-      unfold mp, m, out. rewrite st_torn. fold mp m out.
-      rewrite recover_with_new; [|apply (old_dead_snoc s (files s) torn_file Q); auto|exact Hmp].
-      unfold recover_steps. cbn [files m_out m jman]. fold out.
+      unfold m. rewrite st_torn by assumption. fold m.
+      rewrite recover_with_new; [|apply (old_dead_snoc s (files s) torn_file Q Hom); auto|exact Hmp].
+      unfold recover_steps. cbn [files m_out m jman].
       rewrite lookup_app_r by exact Hout. cbn [lookup]. rewrite N.eqb_refl.
       unfold m. cbn [f_size torn_file m_size jman jout job_output]. rewrite size_of_neq0. fold m.
       cbn [run fold_left apply files mans]. rewrite del_single. unfold del. rewrite dels_app.
       rewrite dels_id; [|intros k' [<-|[]]; exact Hout].
       fold (del out [(out, torn_file)]). rewrite del_single. rewrite app_nil_r. reflexivity.
     - (* complete upload, j inputs deleted *)
-      exists (files_done compact s ins). split; [|right; reflexivity].
+      exists (files_done compact out s ins). split; [|right; reflexivity].
       rewrite firstn_map.
-      assert (HD : forall p, In p (firstn j (present s ins)) -> In p (present s ins)).
+      assert (HD : forall q, In q (firstn j (present s ins)) -> In q (present s ins)).
       { intros q Hq. rewrite <- (firstn_skipn j (present s ins)). apply in_or_app; left; exact Hq. }
-      unfold mp, m, out. rewrite st_up by exact HD. fold mp m out.
-      rewrite recover_with_new; [|apply (old_dead_snoc s _ _ Q); intros k' Hk'; apply keys_dels in Hk'; tauto|exact Hmp].
-      unfold recover_steps. cbn [files m_out m jman]. fold out.
+      unfold m. rewrite st_up by assumption. fold m.
+      rewrite recover_with_new; [|apply (old_dead_snoc s _ _ Q Hom); intros k' Hk'; apply keys_dels in Hk'; tauto|exact Hmp].
+      unfold recover_steps. cbn [files m_out m jman].
       assert (Ho : ~ In out (keys (dels (firstn j (present s ins)) (files s)))).
       { intros H. apply keys_dels in H. tauto. }
       rewrite lookup_app_r by exact Ho. cbn [lookup]. rewrite N.eqb_refl. cbn [m_size]. rewrite N.eqb_refl.
@@ -622,17 +653,13 @@ Section Recover.
       f_equal.
       + rewrite dels_app, dels_dels. f_equal.
         * apply dels_ext. intros k' _. rewrite in_app_iff. split; [intros [H1|H1]; auto|auto].
-        * apply dels_id. intros k' Hk' [E'|[]]. cbn in E'. subst k'. exact (out_notin_pres s ins Hk').
+        * apply dels_id. intros k' Hk' [E'|[]]. cbn in E'. subst k'. exact (out_notin_pres out s ins Hout Hk').
       + apply del_single.
     - (* every step done *)
-      exists (files_done compact s ins). split; [|right; reflexivity].
-      change (SPutMan mp m :: SPut out torn_file :: SPut out (jout compact s ins) ::
-              map SDel (present s ins) ++ [SDelMan mp]) with
-          (SPutMan mp m :: SPut out torn_file :: SPut out (jout compact s ins) ::
-           map SDel (present s ins) ++ [SDelMan mp]).
-      unfold mp, m, out. rewrite <- (jsteps_eq compact s ins Hne). rewrite run_done_any.
+      exists (files_done compact out s ins). split; [|right; reflexivity].
+      unfold m. rewrite <- (jsteps_eq compact out mp s ins Hne). rewrite run_done_any by assumption.
       apply recover_quiet.
-      destruct (job_done compact compact_spec true s ins Q Hnd) as [Q' _]; [intros HB; discriminate|exact Q'].
+      destruct (job_done compact compact_spec out mp true s ins Q) as [Q' _]; [split; [exact Hout|split; [exact Hom0|exact Hmp]]|exact Hnd|intros HB; discriminate|exact Q'].
   Qed.
 End Recover.
 
@@ -705,11 +732,237 @@ Proof.
 Qed.
 
 (* ------------------------------------------------------------------------------------ *)
-(* adaptive retry, cycles, histories                                                     *)
+(* more association-list facts                                                           *)
+(* ------------------------------------------------------------------------------------ *)
+Section AL2.
+  Context {V : Type}.
+  Implicit Types (l : list (N * V)).
+
+  Lemma lookup_put_same k v l : lookup k (put k v l) = Some v.
+  Proof.
+    induction l as [|[k' v'] r IH]; cbn; [rewrite N.eqb_refl; reflexivity|].
+    destruct (N.eqb_spec k k') as [->|Hne]; cbn.
+    - rewrite N.eqb_refl. reflexivity.
+    - destruct (N.eqb_spec k k'); [congruence|exact IH].
+  Qed.
+
+  Lemma lookup_put_other k k' v l : k' <> k -> lookup k' (put k v l) = lookup k' l.
+  Proof.
+    intros Hne. induction l as [|[k2 v2] r IH]; cbn.
+    - destruct (N.eqb_spec k' k); [congruence|reflexivity].
+    - destruct (N.eqb_spec k k2) as [->|Hne2]; cbn.
+      + destruct (N.eqb_spec k' k2); [congruence|reflexivity].
+      + destruct (N.eqb k' k2); [reflexivity|exact IH].
+  Qed.
+
+  Lemma keys_put k v l k' : In k' (keys (put k v l)) <-> k' = k \/ In k' (keys l).
+  Proof.
+    induction l as [|[k2 v2] r IH]; cbn.
+    - intuition.
+    - destruct (N.eqb_spec k k2) as [->|Hne]; cbn; [intuition|]. rewrite IH. intuition.
+  Qed.
+
+  Lemma in_put k v l e : In e (put k v l) -> e = (k, v) \/ In e l.
+  Proof.
+    induction l as [|[k2 v2] r IH]; cbn.
+    - intros [<-|[]]. left; reflexivity.
+    - destruct (N.eqb_spec k k2) as [->|Hne]; cbn.
+      + intros [<-|H]; [left; reflexivity|right; right; exact H].
+      + intros [<-|H]; [right; left; reflexivity|]. destruct (IH H) as [->|H']; [left; reflexivity|right; right; exact H'].
+  Qed.
+
+  Lemma del_put_comm a k v l : a <> k -> del a (put k v l) = put k v (del a l).
+  Proof.
+    intros Hne. unfold del. induction l as [|[k2 v2] r IH].
+    - cbn [put]. rewrite dels_cons, memb_single. destruct (N.eqb_spec k a); [congruence|]. reflexivity.
+    - cbn [put]. destruct (N.eqb_spec k k2) as [->|Hk].
+      + rewrite !dels_cons, memb_single. destruct (N.eqb_spec k2 a); [congruence|]. cbn [put]. rewrite N.eqb_refl. reflexivity.
+      + rewrite !dels_cons, memb_single. destruct (N.eqb_spec k2 a) as [->|Hk2].
+        * exact IH.
+        * cbn [put]. destruct (N.eqb_spec k k2); [congruence|]. rewrite IH. reflexivity.
+  Qed.
+
+  Lemma del_del_comm a b l : del a (del b l) = del b (del a l).
+  Proof.
+    unfold del. rewrite !dels_dels. apply dels_ext. intros k _. cbn. tauto.
+  Qed.
+
+  Lemma put_app_r k v l e : ~ In k (keys l) -> put k v (l ++ e) = l ++ put k v e.
+  Proof.
+    induction l as [|[k2 v2] r IH]; cbn; intros H; [reflexivity|].
+    destruct (N.eqb_spec k k2) as [->|Hne]; [exfalso; apply H; left; reflexivity|].
+    rewrite IH; [reflexivity|tauto].
+  Qed.
+
+  Lemma del_app_r k l e : ~ In k (keys l) -> del k (l ++ e) = l ++ del k e.
+  Proof.
+    intros H. unfold del. rewrite dels_app. rewrite dels_id; [reflexivity|]. intros k' [<-|[]]. exact H.
+  Qed.
+End AL2.
+
+Lemma Forall_firstn {A} (P : A -> Prop) k l : Forall P l -> Forall P (firstn k l).
+Proof.
+  intros H. rewrite <- (firstn_skipn k l) in H. apply Forall_app in H. tauto.
+Qed.
+
+(* ------------------------------------------------------------------------------------ *)
+(* several interrupted jobs at once: recovery of the older manifests commutes with a     *)
+(* newer job's steps                                                                     *)
 (* ------------------------------------------------------------------------------------ *)
 
-(* a job killed with the parent surviving is benign when it dies before its upload starts *)
-Definition benign (oc : outcome) : Prop := match oc with OKill k => k <= 1 | _ => True end.
+(* a step that does not interfere with the recovery of manifest (mp0, m0) *)
+Definition indep (mp0 : path) (m0 : manifest) (st : step) : Prop :=
+  match st with
+  | SPutMan mp _ => mp <> mp0
+  | SDelMan mp => mp <> mp0
+  | SPut p _ => p <> m_out m0 /\ ~ In p (m_inputs m0)
+  | SDel p => p <> m_out m0
+  end.
+
+Lemma recover_steps_indep mp0 m0 st X : indep mp0 m0 st ->
+  recover_steps mp0 m0 (apply st X) = recover_steps mp0 m0 X.
+Proof.
+  intros Hi. unfold recover_steps.
+  assert (E : lookup (m_out m0) (files (apply st X)) = lookup (m_out m0) (files X)).
+  { destruct st as [mp m|p f|p|mp]; cbn [apply files]; try reflexivity.
+    - apply lookup_put_other. destruct Hi as [Hi _]. congruence.
+    - unfold del. apply lookup_dels_notin. intros [E|[]]. cbn in Hi. congruence. }
+  rewrite E. reflexivity.
+Qed.
+
+Definition recovery_step (mp0 : path) (m0 : manifest) (r : step) : Prop :=
+  r = SDelMan mp0 \/ r = SDel (m_out m0) \/ exists a, In a (m_inputs m0) /\ r = SDel a.
+
+Lemma recover_steps_shape mp0 m0 X r : In r (recover_steps mp0 m0 X) -> recovery_step mp0 m0 r.
+Proof.
+  unfold recover_steps, recovery_step. destruct (lookup (m_out m0) (files X)) as [f|].
+  - destruct (N.eqb (f_size f) (m_size m0)).
+    + intros H. apply in_app_or in H. destruct H as [H|[<-|[]]]; [|left; reflexivity].
+      apply in_map_iff in H. destruct H as [a [<- Ha]]. right; right. exists a. split; [exact Ha|reflexivity].
+    + intros [<-|[<-|[]]]; [right; left; reflexivity|left; reflexivity].
+  - intros [<-|[]]. left; reflexivity.
+Qed.
+
+Lemma step_comm mp0 m0 r st Y : recovery_step mp0 m0 r -> indep mp0 m0 st ->
+  apply r (apply st Y) = apply st (apply r Y).
+Proof.
+  intros Hr Hi. destruct Hr as [->|[->|[a [Ha ->]]]]; destruct st as [mp m|p f|p|mp]; cbn [apply files mans] in *; try reflexivity.
+  - f_equal. apply del_put_comm. congruence.
+  - f_equal. apply del_del_comm.
+  - f_equal. apply del_put_comm. destruct Hi as [Hi _]. congruence.
+  - f_equal. apply del_del_comm.
+  - f_equal. apply del_put_comm. destruct Hi as [_ Hi]. intros ->. contradiction.
+  - f_equal. apply del_del_comm.
+Qed.
+
+Lemma run_comm_step mp0 m0 st L : (forall r, In r L -> recovery_step mp0 m0 r) -> indep mp0 m0 st ->
+  forall Y, run L (apply st Y) = apply st (run L Y).
+Proof.
+  intros HL Hi. induction L as [|r L' IH]; intros Y; [reflexivity|].
+  change (run (r :: L') (apply st Y)) with (run L' (apply r (apply st Y))).
+  change (run (r :: L') Y) with (run L' (apply r Y)).
+  rewrite (step_comm mp0 m0 r st Y (HL r (or_introl eq_refl)) Hi).
+  apply IH. intros r' Hr'. apply HL. right; exact Hr'.
+Qed.
+
+Lemma rec1_comm mp0 m0 pre : Forall (indep mp0 m0) pre -> forall X,
+  run (recover_steps mp0 m0 (run pre X)) (run pre X) = run pre (run (recover_steps mp0 m0 X) X).
+Proof.
+  induction pre as [|st pre' IH]; intros Hall X; [reflexivity|].
+  inversion Hall as [|? ? Hst Hrest]; subst.
+  change (run (st :: pre') X) with (run pre' (apply st X)).
+  rewrite (IH Hrest (apply st X)). rewrite (recover_steps_indep mp0 m0 st X Hst).
+  change (run (st :: pre') (run (recover_steps mp0 m0 X) X)) with (run pre' (apply st (run (recover_steps mp0 m0 X) X))).
+  f_equal. apply (run_comm_step mp0 m0); [intros r Hr; eapply recover_steps_shape; exact Hr|exact Hst].
+Qed.
+
+Lemma recover_list_comm ms pre : (forall mp0 m0, In (mp0, m0) ms -> Forall (indep mp0 m0) pre) ->
+  forall X, recover_list ms (run pre X) = run pre (recover_list ms X).
+Proof.
+  induction ms as [|[mp0 m0] r IH]; intros H X; [reflexivity|]. cbn [recover_list].
+  rewrite (rec1_comm mp0 m0 pre (H mp0 m0 (or_introl eq_refl)) X).
+  apply IH. intros a b Hin. apply H. right; exact Hin.
+Qed.
+
+(* the manifests after some steps depend on the earlier manifests only by prepending them *)
+Definition manstep (l : list (path * manifest)) (st : step) : list (path * manifest) :=
+  match st with SPutMan mp m => put mp m l | SDelMan mp => del mp l | _ => l end.
+
+Lemma mans_run pre : forall X, mans (run pre X) = fold_left manstep pre (mans X).
+Proof.
+  induction pre as [|st r IH]; intros X; [reflexivity|].
+  change (run (st :: r) X) with (run r (apply st X)). rewrite IH. cbn [fold_left]. f_equal.
+  destruct st; reflexivity.
+Qed.
+
+Definition man_key_only (mp : path) (st : step) : Prop :=
+  match st with SPutMan k _ => k = mp | SDelMan k => k = mp | _ => True end.
+
+Lemma manstep_prepend mp pre : Forall (man_key_only mp) pre -> forall l e, ~ In mp (keys l) ->
+  fold_left manstep pre (l ++ e) = l ++ fold_left manstep pre e.
+Proof.
+  induction pre as [|st r IH]; intros Hall l e Hm; [reflexivity|].
+  inversion Hall as [|? ? Hst Hr]; subst. cbn [fold_left].
+  destruct st as [k m|p f|p|k]; cbn [manstep man_key_only] in *; subst; try (apply IH; assumption).
+  - rewrite put_app_r by exact Hm. apply IH; assumption.
+  - rewrite del_app_r by exact Hm. apply IH; assumption.
+Qed.
+
+Lemma manstep_origin pre : forall l a b, In (a, b) (fold_left manstep pre l) -> In (a, b) l \/ In (SPutMan a b) pre.
+Proof.
+  induction pre as [|st r IH]; intros l a b H; [left; exact H|]. cbn [fold_left] in H.
+  destruct (IH _ _ _ H) as [H1|H1]; [|right; right; exact H1].
+  destruct st as [k m|p f|p|k]; cbn [manstep] in H1; try (left; exact H1).
+  - apply in_put in H1. destruct H1 as [E|H1]; [inversion E; subst; right; left; reflexivity|left; exact H1].
+  - unfold del in H1. apply In_dels in H1. left; tauto.
+Qed.
+
+(* files after some steps: a key survives unless a step deletes it *)
+Lemma files_run_keep pre : forall X p, In p (keys (files X)) -> ~ In (SDel p) pre -> In p (keys (files (run pre X))).
+Proof.
+  induction pre as [|st r IH]; intros X p Hp Hn; [exact Hp|].
+  change (run (st :: r) X) with (run r (apply st X)). apply IH; [|intros H; apply Hn; right; exact H].
+  destruct st as [k m|q f|q|k]; cbn [apply files]; try exact Hp.
+  - apply keys_put. right; exact Hp.
+  - unfold del. apply keys_dels. split; [exact Hp|]. intros [E|[]]. subst. apply Hn. left; reflexivity.
+Qed.
+
+Lemma files_run_lookup pre : forall X p, (forall st, In st pre -> st <> SDel p /\ forall f, st <> SPut p f) ->
+  lookup p (files (run pre X)) = lookup p (files X).
+Proof.
+  induction pre as [|st r IH]; intros X p H; [reflexivity|].
+  change (run (st :: r) X) with (run r (apply st X)). rewrite IH by (intros st' Hs; apply H; right; exact Hs).
+  destruct (H st (or_introl eq_refl)) as [H1 H2].
+  destruct st as [k m|q f|q|k]; cbn [apply files]; try reflexivity.
+  - apply lookup_put_other. intros ->. exact (H2 f eq_refl).
+  - unfold del. apply lookup_dels_notin. intros [E|[]]. subst. apply H1. reflexivity.
+Qed.
+
+(* recovery only ever deletes paths its manifests mention *)
+Lemma recover_list_files ms : forall X, exists D,
+  files (recover_list ms X) = dels D (files X) /\ forall d, In d D -> In d (tracked_of ms).
+Proof.
+  induction ms as [|[mp0 m0] r IH]; intros X.
+  - exists []. split; [cbn; rewrite dels_nil; reflexivity|intros d []].
+  - cbn [recover_list].
+    assert (H1 : exists D1, files (run (recover_steps mp0 m0 X) X) = dels D1 (files X) /\
+                            forall d, In d D1 -> d = m_out m0 \/ In d (m_inputs m0)).
+    { unfold recover_steps. destruct (lookup (m_out m0) (files X)) as [f|].
+      - destruct (N.eqb (f_size f) (m_size m0)).
+        + exists (m_inputs m0). rewrite run_app, run_dels. split; [reflexivity|auto].
+        + exists [m_out m0]. split; [reflexivity|]. intros d [<-|[]]. left; reflexivity.
+      - exists []. split; [cbn; rewrite dels_nil; reflexivity|intros d []]. }
+    destruct H1 as [D1 [E1 HD1]]. destruct (IH (run (recover_steps mp0 m0 X) X)) as [D2 [E2 HD2]].
+    exists (D1 ++ D2). split.
+    + rewrite E2, E1, dels_dels. reflexivity.
+    + intros d Hd. apply in_app_or in Hd. unfold tracked_of. cbn [flat_map snd]. destruct Hd as [Hd|Hd].
+      * apply in_or_app; left. destruct (HD1 d Hd) as [->|Hi]; [left; reflexivity|right; exact Hi].
+      * apply in_or_app; right. apply HD2. exact Hd.
+Qed.
+
+(* ------------------------------------------------------------------------------------ *)
+(* adaptive retry, cycles, histories                                                     *)
+(* ------------------------------------------------------------------------------------ *)
 
 Lemma quiet_nomans F M : quiet (mkState F M) -> quiet (mkState F []).
 Proof.
@@ -720,138 +973,292 @@ Proof.
   - apply (q_ok _ Q).
 Qed.
 
+Lemma existsb_ext_in {A} (f g : A -> bool) l : (forall a, In a l -> f a = g a) -> existsb f l = existsb g l.
+Proof.
+  induction l as [|a r IH]; cbn; intros H; [reflexivity|].
+  rewrite (H a (or_introl eq_refl)), IH; [reflexivity|]. intros; apply H; right; assumption.
+Qed.
+
+Lemma filter_ext_in' {A} (f g : A -> bool) l : (forall a, In a l -> f a = g a) -> filter f l = filter g l.
+Proof.
+  induction l as [|a r IH]; cbn; intros H; [reflexivity|].
+  rewrite (H a (or_introl eq_refl)), IH; [reflexivity|]. intros; apply H; right; assumption.
+Qed.
+
+(* the steps of a job depend on the state only through its input files *)
+Lemma job_steps_named_ext compact ord out mp ins s s' :
+  (forall p, In p ins -> lookup p (files s) = lookup p (files s')) ->
+  job_steps_named compact ord out mp ins s = job_steps_named compact ord out mp ins s'.
+Proof.
+  intros H. unfold job_steps_named.
+  assert (Ep : present s ins = present s' ins).
+  { unfold present. apply filter_ext_in'. intros p Hp. unfold has_file. rewrite (H p Hp). reflexivity. }
+  rewrite <- Ep.
+  assert (Eo : job_output compact s (present s ins) = job_output compact s' (present s ins)).
+  { unfold job_output.
+    assert (E1 : existsb (meta_in (files s)) (present s ins) = existsb (meta_in (files s')) (present s ins)).
+    { apply existsb_ext_in. intros p Hp. unfold meta_in. rewrite (H p (proj1 (present_in s ins p Hp))). reflexivity. }
+    assert (E2 : flat_map (rows_in (files s)) (present s ins) = flat_map (rows_in (files s')) (present s ins)).
+    { apply flat_map_ext_in. intros p Hp. unfold rows_in. rewrite (H p (proj1 (present_in s ins p Hp))). reflexivity. }
+    rewrite E1, E2. reflexivity. }
+  rewrite Eo. reflexivity.
+Qed.
+
 Section Cycle.
   Variable compact : bool -> list row -> list row.
   Hypothesis compact_spec : forall b l, rel b l (compact b l).
   Variable pr : params.
   Notation jsteps := (job_steps compact code_order).
 
-  (* reachable after any crash: a prefix of one job started in a quiet state whose rows
-     are the reference rows modulo dedup *)
-  Definition crashinv (B : bool) (V : list row) (s' : state) : Prop :=
-    exists s1 ins k, quiet s1 /\ NoDup ins /\ nometa B (files s1) /\ rel B V (visible s1) /\
-                     s' = run (firstn k (jsteps ins s1)) s1.
+  (* every step of a job is one of its own *)
+  Definition job_step_of (out mp : path) (pres : list path) (st : step) : Prop :=
+    match st with
+    | SPutMan k m => k = mp /\ m_out m = out /\ m_inputs m = pres
+    | SPut p _ => p = out
+    | SDel p => In p pres
+    | SDelMan k => k = mp
+    end.
 
-  Lemma quiet_crashinv B V s : quiet s -> nometa B (files s) -> rel B V (visible s) -> crashinv B V s.
+  Lemma job_steps_shape out mp ins s :
+    Forall (job_step_of out mp (present s ins)) (job_steps_named compact code_order out mp ins s).
   Proof.
-    intros Q Hn Hr. exists s, [], 0.
-    split; [exact Q|split; [constructor|split; [exact Hn|split; [exact Hr|reflexivity]]]].
+    destruct (present s ins) as [|p0 l0] eqn:E.
+    - rewrite jsteps_nil by exact E. constructor.
+    - rewrite <- E. rewrite jsteps_eq by congruence.
+      repeat constructor. apply Forall_app. split; [|repeat constructor].
+      apply Forall_forall. intros st Hst. apply in_map_iff in Hst. destruct Hst as [q [<- Hq]]. exact Hq.
   Qed.
 
-  Lemma job_prefix_small s ins k : quiet s -> k <= 1 ->
-    quiet (run (firstn k (jsteps ins s)) s) /\ files (run (firstn k (jsteps ins s)) s) = files s.
+  (* reachable within and across cycles: from a quiet state whose rows are the reference rows
+     modulo dedup, any number of job prefixes, each on inputs no manifest tracks *)
+  Inductive pendV (B : bool) (V : list row) : state -> Prop :=
+  | pv_quiet q : quiet q -> nometa B (files q) -> rel B V (visible q) -> pendV B V q
+  | pv_job s ins k : pendV B V s -> NoDup ins -> (forall p, In p ins -> ~ In p (tracked s)) ->
+      pendV B V (run (firstn k (jsteps ins s)) s).
+
+  Lemma prefix_indep s ins k mp0 m0 : In (mp0, m0) (mans s) -> (forall p, In p ins -> ~ In p (tracked s)) ->
+    Forall (indep mp0 m0) (firstn k (jsteps ins s)).
   Proof.
-    intros Q Hk. destruct (present s ins) eqn:E.
-    - rewrite jsteps_nil by exact E. rewrite firstn_nil. split; [exact Q|reflexivity].
-    - assert (Hne : present s ins <> []) by congruence. rewrite (jsteps_eq compact s ins Hne).
-      destruct k as [|[|k]]; [split; [exact Q|reflexivity]| |lia].
-      cbn [firstn]. rewrite st_man. split; [|reflexivity].
-      constructor; cbn [files mans].
-      + apply (q_files _ Q).
-      + apply NoDup_keys_snoc; [apply (q_mans _ Q)|apply fresh_man_mans].
-      + intros mp m Hin. apply in_app_or in Hin. destruct Hin as [Hin|[Hin|[]]].
-        * apply (q_dead _ Q mp m Hin).
-        * inversion Hin; subst. unfold dead. cbn [files m_out jman]. apply lookup_None. apply fresh_path_files.
-      + apply (q_ok _ Q).
+    intros Hin Hun. apply Forall_firstn. rewrite job_steps_unfold.
+    destruct (fresh_for_fresh s) as [Ho [Hom Hmp]].
+    eapply Forall_impl; [|apply job_steps_shape]. intros st Hst.
+    destruct st as [k' m|p f|p|k']; cbn [job_step_of indep] in *.
+    - destruct Hst as [-> _]. intros E. apply Hmp. rewrite E. apply (in_map fst) in Hin. exact Hin.
+    - subst p. destruct (Hom mp0 m0 Hin) as [A Bq]. split; [congruence|exact Bq].
+    - intros ->. apply (Hun (m_out m0)); [apply (present_in s ins _ Hst)|].
+      unfold tracked. eapply tracked_of_in; [exact Hin|left; reflexivity].
+    - subst k'. intros E. apply Hmp. rewrite E. apply (in_map fst) in Hin. exact Hin.
   Qed.
 
-  Lemma adaptive_inv B V fuel : forall depth ins ocs s s' ocs' r,
-    quiet s -> NoDup ins -> nometa B (files s) -> rel B V (visible s) -> Forall benign ocs ->
+  Lemma prefix_man_key s ins k : Forall (man_key_only (fresh_man s)) (firstn k (jsteps ins s)).
+  Proof.
+    apply Forall_firstn. rewrite job_steps_unfold. eapply Forall_impl; [|apply job_steps_shape].
+    intros st Hst. destruct st; cbn [job_step_of man_key_only] in *; tauto.
+  Qed.
+
+  (* what recovery makes of any pending state *)
+  Lemma pend_recover B V s : pendV B V s ->
+    exists F, recover_all s = mkState F [] /\ quiet (mkState F []) /\ nometa B F /\ rel B V (vis F).
+  Proof.
+    induction 1 as [q Q Hnm Hr|s ins k Hp IH Hnd Hun].
+    - exists (files q). split; [apply recover_quiet; exact Q|]. split; [|split; assumption].
+      apply (quiet_nomans _ (mans q)). destruct q; exact Q.
+    - destruct IH as [F [HF [Q [Hnm Hr]]]].
+      set (out := fresh_path s). set (mp := fresh_man s). set (q' := mkState F []).
+      set (pre := firstn k (jsteps ins s)).
+      (* recovery of the older manifests does not touch the job's inputs *)
+      destruct (recover_list_files (mans s) s) as [D [ED HD]]. fold (recover_all s) in ED. rewrite HF in ED. cbn [files] in ED.
+      assert (Hlook : forall p, In p ins -> lookup p (files s) = lookup p (files q')).
+      { intros p Hp'. cbn [q' files]. rewrite ED. symmetry. apply lookup_dels_notin.
+        intros Hd. exact (Hun p Hp' (HD p Hd)). }
+      assert (Hsub : forall p, In p (keys F) -> In p (keys (files s))).
+      { intros p Hp'. rewrite ED in Hp'. apply keys_dels in Hp'. tauto. }
+      assert (Epre : pre = firstn k (job_steps_named compact code_order out mp ins q')).
+      { unfold pre. rewrite job_steps_unfold. fold out mp. f_equal. apply job_steps_named_ext. exact Hlook. }
+      (* commute the old manifests' recovery with the job's steps *)
+      assert (Ecomm : recover_list (mans s) (run pre s) = run pre q').
+      { rewrite recover_list_comm; [fold (recover_all s); rewrite HF; reflexivity|].
+        intros mp0 m0 Hin. apply prefix_indep; assumption. }
+      assert (Emans : mans (run pre s) = mans s ++ mans (run pre q')).
+      { rewrite !mans_run. cbn [q' mans]. rewrite <- (app_nil_r (mans s)) at 1.
+        apply (manstep_prepend mp); [apply prefix_man_key|apply fresh_man_mans]. }
+      assert (Erec : recover_all (run pre s) = recover_all (run pre q')).
+      { unfold recover_all at 1. rewrite Emans, recover_list_app, Ecomm. reflexivity. }
+      rewrite Erec, Epre.
+      assert (Hfr : fresh_for q' out mp).
+      { split; [intros H; exact (fresh_path_files s (Hsub _ H))|]. split; [intros a b []|intros []]. }
+      destruct (recover_prefix compact compact_spec out mp q' ins k Q Hfr Hnd) as [F' [HF' [-> | ->]]].
+      + exists F. split; [exact HF'|]. split; [exact Q|split; assumption].
+      + destruct (job_done compact compact_spec out mp B q' ins Q Hfr Hnd Hnm) as [Q' [R' N']].
+        exists (files_done compact out q' ins). split; [exact HF'|]. split; [exact (quiet_nomans _ _ Q')|].
+        split; [exact N'|]. eapply rel_trans; [exact Hr|exact R'].
+  Qed.
+
+  (* paths the cycle may still hand to a job: no manifest tracks them and they are older
+     than every name a new job can pick *)
+  Definition ok_rest (s : state) (R : list path) : Prop :=
+    (forall p, In p R -> ~ In p (tracked s)) /\ (forall p, In p R -> (p < fresh_path s)%N).
+
+  Lemma prefix_tracked s ins k p : In p (tracked (run (firstn k (jsteps ins s)) s)) ->
+    In p (tracked s) \/ p = fresh_path s \/ In p ins.
+  Proof.
+    unfold tracked. intros H. apply tracked_of_inv in H. destruct H as [a [b [Hin Hp]]].
+    rewrite mans_run in Hin. apply manstep_origin in Hin. destruct Hin as [Hin|Hin].
+    - left. eapply tracked_of_in; eassumption.
+    - right. assert (Hsh : job_step_of (fresh_path s) (fresh_man s) (present s ins) (SPutMan a b)).
+      { assert (HF := job_steps_shape (fresh_path s) (fresh_man s) ins s). rewrite <- job_steps_unfold in HF.
+        apply (Forall_firstn _ k) in HF. rewrite Forall_forall in HF. apply HF. exact Hin. }
+      cbn in Hsh. destruct Hsh as [_ [Eo Ei]]. destruct Hp as [->|Hp]; [left; exact Eo|].
+      right. rewrite Ei in Hp. apply (present_in s ins p Hp).
+  Qed.
+
+  Lemma prefix_horizon s ins k : (fresh_path s <= fresh_path (run (firstn k (jsteps ins s)) s))%N.
+  Proof.
+    destruct (fresh_for_fresh s) as [Ho [_ Hmp]].
+    destruct (present s ins) eqn:E.
+    { rewrite job_steps_unfold, jsteps_nil by exact E. rewrite firstn_nil. cbn. lia. }
+    assert (Hne : present s ins <> []) by congruence. clear E.
+    assert (Hgt : forall X, (In (fresh_path s) (keys (files X)) \/ In (fresh_path s) (tracked_of (mans X))) ->
+                            (fresh_path s <= fresh_path X)%N).
+    { intros X HX. apply fresh_path_gt in HX. lia. }
+    rewrite job_steps_unfold, (jsteps_eq compact (fresh_path s) (fresh_man s) s ins Hne).
+    destruct (firstn_job k (SPutMan (fresh_man s) (jman compact (fresh_path s) s ins)) (SPut (fresh_path s) torn_file)
+                (SPut (fresh_path s) (jout compact s ins)) (SDelMan (fresh_man s)) (map SDel (present s ins)))
+      as [H|[H|[H|[[j H]|H]]]]; rewrite H; clear H.
+    - cbn. lia.
+    - rewrite st_man by exact Hmp. apply Hgt. right. cbn [mans]. unfold tracked_of. rewrite flat_map_app. apply in_or_app; right.
+      cbn. left; reflexivity.
+    - rewrite st_torn by assumption. apply Hgt. left. cbn [files]. rewrite keys_app. apply in_or_app; right. left; reflexivity.
+    - rewrite firstn_map, st_up; [|exact Hmp|exact Ho|].
+      + apply Hgt. left. cbn [files]. rewrite keys_app. apply in_or_app; right. left; reflexivity.
+      + intros q Hq. rewrite <- (firstn_skipn j (present s ins)). apply in_or_app; left; exact Hq.
+    - rewrite <- (jsteps_eq compact (fresh_path s) (fresh_man s) s ins Hne), st_done by assumption.
+      apply Hgt. left. cbn [files]. unfold files_done. destruct (present s ins); [congruence|].
+      rewrite keys_app. apply in_or_app; right. left; reflexivity.
+  Qed.
+
+  Lemma prefix_rest s ins k R : ok_rest s R -> (forall p, In p R -> ~ In p ins) ->
+    ok_rest (run (firstn k (jsteps ins s)) s) R.
+  Proof.
+    intros [Hu Hh] Hd. split.
+    - intros p Hp Ht. apply prefix_tracked in Ht. destruct Ht as [Ht|[Ht|Ht]].
+      + exact (Hu p Hp Ht).
+      + specialize (Hh p Hp). lia.
+      + exact (Hd p Hp Ht).
+    - intros p Hp. assert (L := prefix_horizon s ins k). specialize (Hh p Hp). lia.
+  Qed.
+
+  Lemma ok_rest_app s R1 R2 : ok_rest s (R1 ++ R2) <-> ok_rest s R1 /\ ok_rest s R2.
+  Proof.
+    unfold ok_rest. split.
+    - intros [A Bh]. repeat split; intros p Hp; try (apply A); try (apply Bh); apply in_or_app; auto.
+    - intros [[A1 B1] [A2 B2]]. split; intros p Hp; apply in_app_or in Hp; destruct Hp; auto.
+  Qed.
+
+  Lemma firstn_all_steps {A} (l : list A) : firstn (length l) l = l.
+  Proof. apply firstn_all. Qed.
+
+  Lemma adaptive_inv B V fuel : forall depth ins ocs s R s' ocs' r,
+    pendV B V s -> NoDup ins -> ok_rest s ins -> ok_rest s R -> (forall p, In p R -> ~ In p ins) ->
     adaptive compact code_order pr fuel depth ins ocs s = (s', ocs', r) ->
-    Forall benign ocs' /\
-    (r <> RStop -> quiet s' /\ nometa B (files s') /\ rel B V (visible s')) /\
-    (r = RStop -> crashinv B V s').
+    pendV B V s' /\ ok_rest s' R.
   Proof.
-    induction fuel as [|fuel IH]; intros depth ins ocs s s' ocs' r Q Hnd Hnm Hr Hb; cbn [adaptive].
-    - intros H; inversion H; subst. split; [exact Hb|]. split; [intros _; auto|discriminate].
-    - destruct (p_max_depth pr <? depth).
-      { intros H; inversion H; subst. split; [exact Hb|]. split; [intros _; auto|discriminate]. }
-      destruct (length ins <? p_min_batch pr).
-      { intros H; inversion H; subst. split; [exact Hb|]. split; [intros _; auto|discriminate]. }
-      assert (Hpop : exists oc ocs1, pop ocs = (oc, ocs1) /\ benign oc /\ Forall benign ocs1).
-      { destruct ocs as [|o r0]; cbn.
-        - exists ODone, []. repeat split; constructor.
-        - exists o, r0. inversion Hb; subst. repeat split; assumption. }
-      destruct Hpop as [oc [ocs1 [Ep [Hoc Hb1]]]]. rewrite Ep.
+    induction fuel as [|fuel IH]; intros depth ins ocs s R s' ocs' r Hp Hnd Hins HR Hdis; cbn [adaptive].
+    - intros H; inversion H; subst. auto.
+    - destruct (p_max_depth pr <? depth); [intros H; inversion H; subst; auto|].
+      destruct (length ins <? p_min_batch pr); [intros H; inversion H; subst; auto|].
+      destruct (pop ocs) as [oc ocs1].
+      assert (Hpre : forall k, pendV B V (run (firstn k (jsteps ins s)) s) /\ ok_rest (run (firstn k (jsteps ins s)) s) R).
+      { intros k. split; [apply pv_job; [exact Hp|exact Hnd|apply Hins]|apply prefix_rest; assumption]. }
       destruct oc as [|k|k|]; cbn [run_job].
-      + (* done *)
-        rewrite run_done_any. intros H; inversion H; subst.
-        destruct (job_done compact compact_spec B s ins Q Hnd Hnm) as [Q' [R' N']].
-        split; [exact Hb1|]. split; [|discriminate]. intros _. split; [exact Q'|]. split; [exact N'|].
-        eapply rel_trans; [exact Hr|exact R'].
-      + (* killed before the upload: retry on halves *)
-        cbn in Hoc. destruct (job_prefix_small s ins k Q Hoc) as [Q1 F1].
-        set (s1 := run (firstn k (jsteps ins s)) s) in *.
-        assert (Hnm1 : nometa B (files s1)) by (rewrite F1; exact Hnm).
-        assert (Hr1 : rel B V (visible s1)) by (unfold visible; rewrite F1; exact Hr).
-        destruct (length ins <=? p_min_batch pr).
-        { intros H; inversion H; subst. split; [exact Hb1|]. split; [intros _; auto|discriminate]. }
-        destruct (adaptive compact code_order pr fuel (S depth) (firstn (length ins / 2) ins) ocs1 s1)
-          as [[s2 ocs2] r2] eqn:E2.
-        destruct (IH _ _ _ _ _ _ _ Q1 (NoDup_firstn _ _ Hnd) Hnm1 Hr1 Hb1 E2) as [Hb2 [Hok2 Hst2]].
-        destruct r2.
-        * destruct (Hok2 ltac:(discriminate)) as [Q2 [N2 R2]].
-          intros E3. exact (IH _ _ _ _ _ _ _ Q2 (NoDup_skipn _ _ Hnd) N2 R2 Hb2 E3).
-        * intros H; inversion H; subst. split; [exact Hb2|]. split; [exact Hok2|exact Hst2].
-        * intros H; inversion H; subst. split; [exact Hb2|]. split; [exact Hok2|exact Hst2].
-      + (* the whole process dies inside this job *)
-        intros H; inversion H; subst. split; [exact Hb1|]. split; [intros C; congruence|]. intros _.
-        exists s, ins, k. split; [exact Q|split; [exact Hnd|split; [exact Hnm|split; [exact Hr|reflexivity]]]].
-      + intros H; inversion H; subst. split; [exact Hb1|]. split; [intros _; auto|discriminate].
+      + intros H; inversion H; subst. rewrite <- (firstn_all_steps (jsteps ins s)). apply Hpre.
+      + destruct (Hpre k) as [Hp1 HR1]. set (s1 := run (firstn k (jsteps ins s)) s) in *.
+        destruct (existsb (fun p => memb p (tracked s1)) ins) eqn:Etr; [intros H; inversion H; subst; auto|].
+        destruct (length ins <=? p_min_batch pr); [intros H; inversion H; subst; auto|].
+        (* nothing of this batch is tracked: retry on halves *)
+        assert (Hun1 : forall p, In p ins -> ~ In p (tracked s1)).
+        { intros p Hp' Ht. assert (existsb (fun p => memb p (tracked s1)) ins = true); [|congruence].
+          apply existsb_exists. exists p. split; [exact Hp'|apply memb_In; exact Ht]. }
+        assert (Hins1 : ok_rest s1 ins).
+        { split; [exact Hun1|]. intros p Hp'. assert (L := prefix_horizon s ins k). fold s1 in L. destruct Hins as [_ Hh]. specialize (Hh p Hp'). lia. }
+        set (mid := length ins / 2).
+        assert (Esplit : ins = firstn mid ins ++ skipn mid ins) by (symmetry; apply firstn_skipn).
+        assert (Hnd12 : NoDup (firstn mid ins ++ skipn mid ins)) by (rewrite <- Esplit; exact Hnd).
+        rewrite Esplit in Hins1. apply ok_rest_app in Hins1. destruct Hins1 as [H1 H2].
+        destruct (adaptive compact code_order pr fuel (S depth) (firstn mid ins) ocs1 s1) as [[s2 ocs2] r2] eqn:E2.
+        assert (Hdis1 : forall p, In p (skipn mid ins ++ R) -> ~ In p (firstn mid ins)).
+        { intros p Hp' Hf. apply in_app_or in Hp'. destruct Hp' as [Hs|Hr'].
+          - clear -Hnd12 Hs Hf. induction (firstn mid ins) as [|a l IHl]; [destruct Hf|].
+            cbn in Hnd12. inversion Hnd12 as [|? ? Hn Hd]; subst. destruct Hf as [->|Hf].
+            + apply Hn. apply in_or_app; right; exact Hs.
+            + exact (IHl Hd Hf).
+          - apply (Hdis p Hr'). rewrite Esplit. apply in_or_app; left; exact Hf. }
+        destruct (IH _ _ _ _ (skipn mid ins ++ R) _ _ _ Hp1 (NoDup_firstn _ _ Hnd) H1
+                     (proj2 (ok_rest_app s1 _ _) (conj H2 HR1)) Hdis1 E2) as [Hp2 HR2].
+        apply ok_rest_app in HR2. destruct HR2 as [H2' HR2'].
+        destruct r2; [|intros H; inversion H; subst; auto|intros H; inversion H; subst; auto].
+        intros E3. refine (IH _ _ _ _ R _ _ _ Hp2 (NoDup_skipn _ _ Hnd) H2' HR2' _ E3).
+        intros p Hp' Hs. apply (Hdis p Hp'). rewrite Esplit. apply in_or_app; right; exact Hs.
+      + intros H; inversion H; subst. apply Hpre.
+      + intros H; inversion H; subst. auto.
   Qed.
 
   Lemma run_batches_inv B V fuel bs : forall ocs s,
-    quiet s -> Forall (@NoDup path) bs -> nometa B (files s) -> rel B V (visible s) -> Forall benign ocs ->
-    crashinv B V (fst (fst (run_batches compact code_order pr fuel bs ocs s))).
+    pendV B V s -> NoDup (concat bs) -> ok_rest s (concat bs) ->
+    pendV B V (fst (fst (run_batches compact code_order pr fuel bs ocs s))).
   Proof.
-    induction bs as [|b r IH]; intros ocs s Q Hbs Hnm Hr Hb; cbn [run_batches].
-    - cbn. apply quiet_crashinv; assumption.
-    - inversion Hbs as [|? ? Hb1 Hbr]; subst.
-      destruct (adaptive compact code_order pr fuel 0 b ocs s) as [[s1 ocs1] r1] eqn:E.
-      destruct (adaptive_inv B V fuel _ _ _ _ _ _ _ Q Hb1 Hnm Hr Hb E) as [Hbo [Hok Hst]].
-      destruct r1.
-      + destruct (Hok ltac:(discriminate)) as [Q1 [N1 R1]]. apply IH; assumption.
-      + destruct (Hok ltac:(discriminate)) as [Q1 [N1 R1]]. apply IH; assumption.
-      + cbn. apply Hst. reflexivity.
+    induction bs as [|b r IH]; intros ocs s Hp Hnd HR; cbn [run_batches]; [exact Hp|].
+    cbn [concat] in Hnd, HR. apply ok_rest_app in HR. destruct HR as [Hb Hr].
+    destruct (NoDup_app_both _ _ Hnd) as [Hnb Hnr].
+    destruct (adaptive compact code_order pr fuel 0 b ocs s) as [[s1 ocs1] r1] eqn:E.
+    assert (Hdis : forall p, In p (concat r) -> ~ In p b).
+    { intros p Hp' Hb'. clear -Hnd Hp' Hb'. induction b as [|a l IHl]; [destruct Hb'|].
+      cbn in Hnd. inversion Hnd as [|? ? Hn Hd]; subst. destruct Hb' as [->|Hb'].
+      - apply Hn. apply in_or_app; right; exact Hp'.
+      - exact (IHl Hd Hb'). }
+    destruct (adaptive_inv B V fuel _ _ _ _ _ _ _ _ Hp Hnb Hb Hr Hdis E) as [Hp1 HR1].
+    destruct r1; try (apply IH; assumption). cbn. exact Hp1.
   Qed.
 
-  (* what recovery makes of any crash state *)
-  Lemma recover_crashinv B V s : crashinv B V s ->
-    exists F, recover_all s = mkState F [] /\ quiet (mkState F []) /\ nometa B F /\ rel B V (vis F).
+  Lemma split_go_concat_nodup nb mx l : NoDup l -> NoDup (concat (split_go nb mx l)) /\ forall p, In p (concat (split_go nb mx l)) -> In p l.
   Proof.
-    intros [s1 [ins [k [Q [Hnd [Hnm [Hr Es]]]]]]]. subst s.
-    destruct (recover_prefix compact compact_spec s1 ins k Q Hnd) as [F [HF [-> | ->]]].
-    - exists (files s1). split; [exact HF|]. split; [|split; assumption].
-      apply (quiet_nomans _ (mans s1)). destruct s1; exact Q.
-    - destruct (job_done compact compact_spec B s1 ins Q Hnd Hnm) as [Q' [R' N']].
-      exists (files_done compact s1 ins). split; [exact HF|]. split; [exact (quiet_nomans _ _ Q')|].
-      split; [exact N'|]. eapply rel_trans; [exact Hr|exact R'].
+    destruct nb as [|nb]; [cbn; split; [constructor|intros p []]|]. rewrite split_go_concat. auto.
   Qed.
 
-  Lemma NoDup_filter_candidates s l : NoDup l -> NoDup (filter_candidates s l).
-  Proof. apply NoDup_filter. Qed.
-
-  Lemma cycle_inv B V cfg elig ocs s : crashinv B V s -> Forall benign ocs ->
-    crashinv B V (cycle compact code_order pr cfg elig ocs s).
+  Lemma split_batches_concat_nodup mx0 l : NoDup l ->
+    NoDup (concat (split_batches pr mx0 l)) /\ forall p, In p (concat (split_batches pr mx0 l)) -> In p l.
   Proof.
-    intros Hc Hb. destruct (recover_crashinv B V s Hc) as [F [HF [Q [Hnm Hr]]]].
+    intros H. unfold split_batches. destruct (length l <=? clamp pr mx0).
+    - cbn. rewrite app_nil_r. auto.
+    - apply split_go_concat_nodup. exact H.
+  Qed.
+
+  Lemma cycle_inv B V cfg elig ocs s : pendV B V s -> pendV B V (cycle compact code_order pr cfg elig ocs s).
+  Proof.
+    intros Hp. destruct (pend_recover B V s Hp) as [F [HF [Q [Hnm Hr]]]].
     unfold cycle. rewrite HF.
-    destruct (elig && should_compact cfg (mkState F [])); [|apply quiet_crashinv; assumption].
-    destruct (filter_candidates (mkState F []) (keys (files (mkState F [])))) eqn:E;
-      [apply quiet_crashinv; assumption|]. rewrite <- E.
-    apply run_batches_inv; try assumption.
-    apply split_batches_nodup. apply NoDup_filter_candidates. apply (q_files _ Q).
+    assert (Hq : pendV B V (mkState F [])) by (apply pv_quiet; assumption).
+    destruct (elig && should_compact cfg (mkState F [])); [|exact Hq].
+    destruct (filter_candidates (mkState F []) (keys (files (mkState F [])))) as [|c0 cl] eqn:E; [exact Hq|]. rewrite <- E.
+    set (cand := filter_candidates (mkState F []) (keys (files (mkState F [])))).
+    assert (Hnc : NoDup cand) by (apply NoDup_filter; apply (q_files _ Q)).
+    destruct (split_batches_concat_nodup (c_max_batch cfg) cand Hnc) as [Hnd Hsub].
+    apply run_batches_inv; [exact Hq|exact Hnd|]. split.
+    - intros q _ Ht. cbn in Ht. exact Ht.
+    - intros q Hp'. apply fresh_path_gt. left. apply Hsub in Hp'. unfold cand, filter_candidates in Hp'.
+      apply filter_In in Hp'. tauto.
   Qed.
 
   (* an undisturbed cycle: every job runs to completion *)
   Lemma adaptive_clean fuel depth ins s :
     adaptive compact code_order pr fuel depth ins [] s = (s, [], RErr) \/
-    adaptive compact code_order pr fuel depth ins [] s = (mkState (files_done compact s ins) (mans s), [], ROk).
+    adaptive compact code_order pr fuel depth ins [] s =
+      (mkState (files_done compact (fresh_path s) s ins) (mans s), [], ROk).
   Proof.
     destruct fuel as [|fuel]; cbn [adaptive]; [left; reflexivity|].
     destruct (p_max_depth pr <? depth); [left; reflexivity|].
     destruct (length ins <? p_min_batch pr); [left; reflexivity|].
-    cbn [pop run_job]. rewrite run_done_any. right; reflexivity.
+    cbn [pop run_job]. rewrite job_steps_unfold, run_done_any; [right; reflexivity|apply fresh_man_mans|apply fresh_path_files].
   Qed.
 
   Lemma run_batches_clean B V fuel bs : forall s,
@@ -864,20 +1271,20 @@ Section Cycle.
     - inversion Hbs as [|? ? Hb1 Hbr]; subst.
       destruct (adaptive_clean fuel 0 b s) as [E|E]; rewrite E.
       + apply IH; assumption.
-      + destruct (job_done compact compact_spec B s b Q Hb1 Hnm) as [Q' [R' N']].
+      + destruct (job_done compact compact_spec (fresh_path s) (fresh_man s) B s b Q (fresh_for_fresh s) Hb1 Hnm) as [Q' [R' N']].
         apply IH; try assumption. eapply rel_trans; [exact Hr|exact R'].
   Qed.
 
-  Lemma cycle_clean B V cfg elig s : crashinv B V s ->
+  Lemma cycle_clean B V cfg elig s : pendV B V s ->
     let s' := cycle compact code_order pr cfg elig [] s in
     quiet s' /\ mans s' = [] /\ rel B V (visible s').
   Proof.
-    intros Hc. destruct (recover_crashinv B V s Hc) as [F [HF [Q [Hnm Hr]]]].
+    intros Hc. destruct (pend_recover B V s Hc) as [F [HF [Q [Hnm Hr]]]].
     unfold cycle. rewrite HF.
     destruct (elig && should_compact cfg (mkState F [])); [|cbn; auto].
     destruct (filter_candidates (mkState F []) (keys (files (mkState F [])))) eqn:E; [cbn; auto|]. rewrite <- E.
     apply run_batches_clean; try assumption; [reflexivity|].
-    apply split_batches_nodup. apply NoDup_filter_candidates. apply (q_files _ Q).
+    apply split_batches_nodup. apply NoDup_filter. apply (q_files _ Q).
   Qed.
 
   (* a history of process lifetimes: each runs one cycle (eligible or not) whose jobs meet
@@ -885,11 +1292,9 @@ Section Cycle.
   Definition lives (cfg : config) (h : list (bool * list outcome)) (s : state) : state :=
     fold_left (fun s eo => cycle compact code_order pr cfg (fst eo) (snd eo) s) h s.
 
-  Lemma lives_inv B V cfg h : forall s, crashinv B V s -> Forall (fun eo => Forall benign (snd eo)) h ->
-    crashinv B V (lives cfg h s).
+  Lemma lives_inv B V cfg h : forall s, pendV B V s -> pendV B V (lives cfg h s).
   Proof.
-    induction h as [|[e ocs] r IH]; intros s Hc Hh; cbn; [exact Hc|].
-    inversion Hh; subst. apply IH; [apply cycle_inv; assumption|assumption].
+    induction h as [|[e ocs] r IH]; intros s Hc; cbn; [exact Hc|]. apply IH. apply cycle_inv. exact Hc.
   Qed.
 
   Lemma nometa_any F : nometa (any_meta F) F.
@@ -902,17 +1307,16 @@ Section Cycle.
 
   Theorem crash_recover cfg h elig s0 :
     NoDup (keys (files s0)) -> mans s0 = [] -> oks (files s0) ->
-    Forall (fun eo => Forall benign (snd eo)) h ->
     let s := cycle compact code_order pr cfg elig [] (lives cfg h s0) in
     rel (any_meta (files s0)) (visible s0) (visible s) /\
     mans s = [] /\ oks (files s) /\ NoDup (keys (files s)).
   Proof.
-    intros Hnd Hm Hok Hh.
+    intros Hnd Hm Hok.
     assert (Q0 : quiet s0).
     { constructor; [exact Hnd|rewrite Hm; constructor|rewrite Hm; intros ? ? []|exact Hok]. }
-    assert (C0 : crashinv (any_meta (files s0)) (visible s0) s0).
-    { apply quiet_crashinv; [exact Q0|apply nometa_any|apply rel_refl]. }
-    destruct (cycle_clean _ _ cfg elig _ (lives_inv _ _ cfg h s0 C0 Hh)) as [Q [M R]].
+    assert (C0 : pendV (any_meta (files s0)) (visible s0) s0).
+    { apply pv_quiet; [exact Q0|apply nometa_any|apply rel_refl]. }
+    destruct (cycle_clean _ _ cfg elig _ (lives_inv _ _ cfg h s0 C0)) as [Q [M R]].
     split; [exact R|]. split; [exact M|]. split; [apply (q_ok _ Q)|apply (q_files _ Q)].
   Qed.
 End Cycle.
@@ -930,21 +1334,23 @@ Proof.
   intros Hp. assert (Hne : present s ins <> []) by (intros E; rewrite E in Hp; exact Hp).
   assert (Hk : In p (keys (files s))) by (apply (present_in s ins p Hp)).
   destruct (In_keys_lookup p (files s) Hk) as [f Hf].
-  rewrite (jsteps_eq compact s ins Hne).
-  destruct (firstn_job k (SPutMan (fresh_man s) (jman compact s ins)) (SPut (fresh_path s) torn_file)
-              (SPut (fresh_path s) (jout compact s ins)) (SDelMan (fresh_man s)) (map SDel (present s ins)))
+  destruct (fresh_for_fresh s) as [Ho [_ Hmp]].
+  rewrite job_steps_unfold. set (out := fresh_path s) in *. set (mp := fresh_man s) in *.
+  rewrite (jsteps_eq compact out mp s ins Hne).
+  destruct (firstn_job k (SPutMan mp (jman compact out s ins)) (SPut out torn_file)
+              (SPut out (jout compact s ins)) (SDelMan mp) (map SDel (present s ins)))
     as [H|[H|[H|[[j H]|H]]]]; rewrite H; clear H.
   - cbn. congruence.
-  - rewrite st_man. cbn [files]. congruence.
-  - rewrite st_torn. cbn [files]. rewrite lookup_app_l by exact Hk. congruence.
-  - intros _. rewrite firstn_map. rewrite st_up.
+  - rewrite st_man by exact Hmp. cbn [files]. congruence.
+  - rewrite st_torn by assumption. cbn [files]. rewrite lookup_app_l by exact Hk. congruence.
+  - intros _. rewrite firstn_map. rewrite st_up; [|exact Hmp|exact Ho|].
     + cbn [files]. rewrite lookup_app_r; [cbn; rewrite N.eqb_refl; reflexivity|].
-      intros Hin. apply keys_dels in Hin. exact (fresh_path_files s (proj1 Hin)).
+      intros Hin. apply keys_dels in Hin. exact (Ho (proj1 Hin)).
     + intros q Hq. rewrite <- (firstn_skipn j (present s ins)). apply in_or_app; left; exact Hq.
-  - intros _. rewrite <- (jsteps_eq compact s ins Hne). rewrite run_done_any. cbn [files].
+  - intros _. rewrite <- (jsteps_eq compact out mp s ins Hne). rewrite run_done_any by assumption. cbn [files].
     unfold files_done. destruct (present s ins) eqn:E; [congruence|]. rewrite <- E.
     rewrite lookup_app_r; [cbn; rewrite N.eqb_refl; reflexivity|].
-    intros Hin. apply keys_dels in Hin. exact (fresh_path_files s (proj1 Hin)).
+    intros Hin. apply keys_dels in Hin. exact (Ho (proj1 Hin)).
 Qed.
 
 (* recovery removes an input only next to an output of exactly the recorded size *)
@@ -1049,21 +1455,18 @@ Definition wit_file (k : N) : file := mkFile [mkRow k k] false false 2%N true.
 Definition wit_s0 : state :=
   mkState [(1%N, wit_file 1); (2%N, wit_file 2); (3%N, wit_file 3); (4%N, wit_file 4)] [].
 
-(* a job killed right after its upload, retried on halves by the surviving parent, then one
-   undisturbed cycle (which recovers the orphaned manifest): every row is there twice *)
+(* the former refutation witness: a job killed right after its upload while the parent lives on.
+   The retry is now skipped (a manifest tracks the batch); the next cycle recovers the manifest. *)
 Definition wit_final : state :=
   cycle dedup_ref code_order wit_params wit_cfg true []
     (cycle dedup_ref code_order wit_params wit_cfg true [OKill 3] wit_s0).
 
-Lemma wit_final_rows : length (visible wit_final) = 8 /\ mans wit_final = [] /\ length (files wit_final) = 3.
-Proof. vm_compute. auto. Qed.
-
-Lemma adaptive_retry_refuted :
-  ~ rel (any_meta (files wit_s0)) (visible wit_s0) (visible wit_final).
-Proof.
-  intros H. change (any_meta (files wit_s0)) with false in H. cbn [rel] in H.
-  apply Permutation_length in H. rewrite (proj1 wit_final_rows) in H. vm_compute in H. discriminate.
-Qed.
+Lemma wit_final_rows :
+  length (files (cycle dedup_ref code_order wit_params wit_cfg true [OKill 3] wit_s0)) = 5 /\
+  length (mans (cycle dedup_ref code_order wit_params wit_cfg true [OKill 3] wit_s0)) = 1 /\
+  length (visible wit_final) = 4 /\ mans wit_final = [] /\ length (files wit_final) = 1 /\
+  relb false (visible wit_s0) (visible wit_final) = true.
+Proof. vm_compute. repeat split. Qed.
 
 (* were the manifest written AFTER the upload, a crash between the two would duplicate rows *)
 Definition bad_order : list phase := [PhUpload; PhManifest; PhDeleteInputs; PhDeleteManifest].
